@@ -944,7 +944,14 @@ def is_pure_callable(f):
     mod = getattr(f, '__module__', None) or ''
     if mod in ('posixpath', 'genericpath', 're', 'math', 'operator', 'json', 'pprint', 'textwrap'):
         return True
+    if mod.split('.')[0] == 'networkx':
+        return True          # trusted graph library on concrete graphs (listed in the target's trusted base)
     if isinstance(f, type) and f in (str, int, float, bool, list, dict, tuple, set, frozenset, bytes):
+        return True
+    owner = getattr(f, '__self__', None)
+    if owner is not None and (type(owner).__module__ or '').split('.')[0] in ('networkx',):
+        # read-only queries on a concrete graph object of a trusted library (subgraph, predecessors, nodes, ...)
+        # (every path re-runs the harness from the start, so native mutation of such an object is local to the path)
         return True
     if isinstance(f, type(len)) and getattr(f, '__self__', None) in (dict, str, int, float, list, tuple):
         return True          # dict.fromkeys, str.join, ...
